@@ -37,7 +37,7 @@ class C09(Check):
     per_run_timeout = 240
     expected_probes = ["sim:sv", "sim:dm", "entry:simulate", "entry:run", "entry:steps", "feat:channel",
                        "feat:keyed-channel", "noise:constant", "noise:insertion", "noise:gate-like",
-                       "noise:with_noise-circuit", "draw:uniform-kraus", "draw:choice", "convert-checked",
+                       "noise:with_noise-circuit", "noise:thermal", "draw:uniform-kraus", "draw:choice", "convert-checked",
                        "feat:reset", "boundary:fallback-branch"]
 
     def setup(self) -> None:
@@ -105,7 +105,7 @@ class C09(Check):
         noise_bits = 0.0
         if use_noise_model:
             pr = [0.125, 0.25, 0.0625, 0.5][tape.draw(4, "noise-p")]
-            nk = tape.weighted([3, 2, 2, 2], "noise-kind")
+            nk = tape.weighted([3, 2, 2, 2, 2], "noise-kind")
             if nk == 0:
                 ch = [cirq.depolarize(pr), cirq.bit_flip(pr), cirq.amplitude_damp(pr), cirq.phase_damp(pr)][tape.draw(4, "noise-ch")]
                 noise = cirq.ConstantQubitNoiseModel(ch)
@@ -123,10 +123,30 @@ class C09(Check):
                 noise = cirq.devices.InsertionNoiseModel(ops_added=added, prepend=bool(tape.draw(2, "prepend")),
                                                          require_physical_tag=False)
                 noise_kind = "insertion"
-            else:
+            elif nk == 3:
                 ch = [cirq.bit_flip(pr), cirq.phase_damp(pr)][tape.draw(2, "noise-ch")]
                 noise = cirq.ConstantQubitNoiseModel(ch, prepend=True)
                 noise_kind = "constant"
+            else:
+                # thermal (T1 / Tphi / heating) noise derived from gate durations: Kraus channels on every
+                # qubit of the system after (or before) each moment, incl. idle qubits
+                qsys = set(circuit.all_qubits()) or {g.qudits[0]}
+                rates = [None, 1e-3, 5e-3, 2e-2]
+                noise = cirq.devices.ThermalNoiseModel(
+                    qubits=qsys,
+                    gate_durations_ns={cirq.ZPowGate: 0.0, cirq.XPowGate: 25.0, cirq.YPowGate: 25.0,
+                                       cirq.HPowGate: 25.0, cirq.CZPowGate: 32.0, cirq.CXPowGate: 40.0,
+                                       cirq.ISwapPowGate: 32.0, cirq.SwapPowGate: 50.0, cirq.MeasurementGate: 200.0,
+                                       cirq.ResetChannel: 150.0, cirq.PhasedXZGate: 25.0, cirq.MatrixGate: 25.0,
+                                       cirq.Ry: 25.0, cirq.Rx: 25.0},
+                    heat_rate_GHz=rates[tape.draw(4, "heat")],
+                    cool_rate_GHz=rates[1 + tape.draw(3, "cool")],
+                    dephase_rate_GHz=rates[tape.draw(4, "dephase")],
+                    require_physical_tag=False,
+                    skip_measurements=bool(tape.draw(2, "skip-meas")),
+                    prepend=bool(tape.draw(2, "prepend")),
+                )
+                noise_kind = "thermal"
             model = cirq.NoiseModel.from_noise_model_like(noise)
             qubits_sorted = sorted(circuit.all_qubits())
             if not qubits_sorted:
